@@ -43,6 +43,11 @@ import (
 // InboundRequest(ctx) and ServerFromContext(ctx). Names() of the root is
 // compared with the reference list (sorted, complete).
 //
+// Block B (c17_batch.go) sends the requests in batches (same name repeated,
+// mixed names, notifications) through a root assigner whose choice depends
+// on InboundRequest(ctx): every request of a batch must be shown to the
+// assigners itself and run the handler built for it.
+//
 // Leniencies: the empty method name cannot be expressed by the client (it
 // sends no "method" member); only "an error, no handler run" is required for
 // it and it is not counted as a distinct case. How often Assign is called for
@@ -182,6 +187,8 @@ type c17assignRec struct {
 	node, method string
 	inNil        bool
 	inMethod     string
+	inID         string // InboundRequest(ctx).ID() ("" for a notification)
+	inNote       bool
 }
 
 type c17runRec struct {
@@ -204,6 +211,7 @@ type c17state struct {
 	assigns map[string][]c17assignRec // by request tag
 	runs    map[string][]c17runRec    // by request tag
 	orphans []c17assignRec            // Assign calls without an attributable inbound request
+	bounds  map[string][]c17bound     // batch cases: what the request-dependent assigner bound the run handler to, by request tag
 }
 
 func c17tagOf(req *jrpc2.Request) string {
@@ -235,7 +243,7 @@ func (r *c17rec) Assign(ctx context.Context, method string) jrpc2.Handler {
 	rec := c17assignRec{node: r.id, method: method, inNil: in == nil}
 	tag := ""
 	if in != nil {
-		rec.inMethod = in.Method()
+		rec.inMethod, rec.inID, rec.inNote = in.Method(), in.ID(), in.IsNotification()
 		tag = c17tagOf(in)
 	}
 	r.st.mu.Lock()
@@ -796,6 +804,11 @@ func c17cases(e vt.Env, yield func(vt.Case) bool) {
 			c17exec(c, fmt.Sprintf("random tree %s depth %d: %v", id, tree.depth(), c17clip(tree.names())), tree, dis, probes)
 		})
 	}
+
+	// B: batches through a request-dependent root assigner (c17_batch.go)
+	if ok {
+		c17batchCases(e, u, both)
+	}
 }
 
 func init() {
@@ -805,19 +818,25 @@ func init() {
 		Rule: "universe U = all distinct strings of <=4 symbols over {a,A,.,rpc,RPC,rpc.,serverInfo,é}; configurations x DisableBuiltin {false,true}, each a live Server probed by a live Client (4 concurrent callers, -race): " +
 			"X0 Map with all of U as keys probed with all of U; X1 ServiceMap{s: Map{U}} for 8 service names (thorough: all strings of <=2 symbols) probed with U and s.U; " +
 			"X2/X3 fixed chains of nesting depth 2 and 3 over Map{U} probed with the qualified names; R seeded random trees (depth 0..3, 1-4 services per level, hot and random keys) probed with their names, boundary neighbours and a universe sample. " +
+			"B seeded random trees behind a root assigner whose returned handler is bound to the InboundRequest(ctx) of that Assign call (params tag, params variant, id, notification flag), driven by Client.Batch with 160 batches per tree of 1..8 specs: one name k times / ABAB / draws with replacement from three names / independent names, names from the tree (3 of 5), its boundary neighbours, hot keys and a universe sample, each spec a notification with probability 1/4; " +
+			"per request of a batch: recording nodes saw this very request (tag, method, id, notification flag) along exactly the reference path, the leaf its name selects ran once with this request as InboundRequest, and the handler that ran is the one the root assigner built for this request (result {leaf, tag, id, variant} for calls, harness record for notifications); withheld names as before. " +
 			"Oracle: reference resolver from the documentation; recording assigner at every node; identity tag per handler. " +
-			"distinct_nontrivial = distinct (DisableBuiltin, non-empty method name, expected outcome class {handler at level k, not-found by reason and level, reserved, serverInfo}) triples actually called and compared",
+			"distinct_nontrivial = distinct (DisableBuiltin, non-empty method name, expected outcome class {handler at level k, not-found by reason and level, reserved, serverInfo}) triples actually called and compared, plus for block B distinct (DisableBuiltin, name, class, notification?, name already occurred earlier in the same batch?) tuples compared",
 		Assumptions: []string{
 			"the empty method name is outside the domain of dispatch (the client cannot express it); only 'error, no handler' is required",
 			"method names are valid UTF-8 strings of the alphabet; names are probed through Client.Call with a unique params tag that attributes Assign calls and handler runs to requests",
 			"method-not-found = error code -32601 (JSON-RPC 2.0)",
 			"Go 1.26.8 standard library; vchan in-memory channel",
+			"block B: Client.Batch returns the responses in spec order without notifications (positions cross-checked with the ids the handlers saw); a call sent after all batches is answered only after earlier notifications' handlers returned (used to wait for notification handlers before reading the records); ids are the client's own numeric ids",
 		},
 		Require: map[string]int64{
 			"handler_runs_checked": 20000, "resolved_through_servicemap": 10000, "resolved_with_dots_after_first": 3000,
 			"not_found_nokey": 5000, "not_found_nodot": 2000, "not_found_nosvc": 2000,
 			"reserved_names_withheld": 2000, "rpc_names_dispatched_with_builtin_disabled": 2000,
 			"serverinfo_answers_checked": 20, "names_lists_checked": 40, "assign_calls_checked": 50000,
+			"batches_checked": 4000, "batches_with_repeated_method_names": 2500, "batch_requests_checked": 15000, "batch_repeated_name_requests_checked": 7000,
+			"batch_repeated_name_runs_checked": 2500, "batch_handler_runs_checked": 5000, "batch_notifications_run_checked": 1000, "batch_not_found": 4000,
+			"batch_reserved_names_withheld": 500, "batch_assign_calls_checked": 20000,
 		},
 		Exhaustive: func(e vt.Env) bool { return false },
 		Cases:      c17cases,
